@@ -47,7 +47,7 @@ Lemma decode_body_bound cs fin hc bc ru mx maxSize hb log st' out log' :
   bytes_ok (concat (r_chunks (d_rd st'))) /\ d_max st' = mx.
 Proof.
   intros Hh Hm Hb Hsz E. pose proof Hh as [Hhb [H8 Hl]].
-  pose proof (le32_get_range hb Hhb) as Hg. unfold decode_body in E.
+  pose proof (le32_get_range hb Hhb) as Hg. unfold decode_body, gdecode_body in E.
   destruct (header_total_demux hb Hh) as [[t [Ht [Hr Hd]]]|He].
   2:{ rewrite He in E. injection E as <- <- <-. cbn [d_rd r_chunks d_max].
       repeat split; try lia; try discriminate; try assumption. }
@@ -126,7 +126,7 @@ Theorem alloc_bound cs fin hc bc ru mx st' out log :
   bytes_ok (concat (r_chunks (d_rd st'))) /\ d_max st' = mx.
 Proof.
   intros Hb Hmx E. pose proof (eff_max_nonneg mx ltac:(lia)) as He0.
-  unfold decode1, decode1_gen in E. cbn [d_max d_rd] in E.
+  unfold decode1, decode1_gen, gdecode1_gen in E; change (@gdecode_body reader read_full) with decode_body in E. cbn [d_max d_rd] in E.
   destruct (negb (mx =? 0) && (mx <? word_size)) eqn:Ecfg.
   { injection E as <- <- <-. cbn [alloc_bytes alloc_table d_rd r_chunks d_max]. unfold max_stream_segments.
     repeat split; try lia; try discriminate; assumption. }
